@@ -224,3 +224,26 @@ def c15(c):
         exhaustive=False,
         exhaustive_subspaces=["complete reachable state space of the 8-bit token table for each limit 1..12 (quick) / 1..16 (thorough)"],
         assumptions=["-fno-access-control is used in this one TU to read the private cursor for state identification only"]))
+
+
+# --------------------------------------------------------------------- C20
+@plan("C20")
+def c20(c):
+    units, runs = [], []
+    for n in (["ilp32"] if not c.thorough else ["ilp32", "narrow", "wide"]):
+        nm = "c20_" + n
+        units.append(dict(name=nm + "_p0", srcs=[D + "c20_opaque_casts.cpp"], build="asan0", defs=EXC + ["CFG=vsbx_" + n, "PART=0"]))
+        units.append(dict(name=nm + "_p1", srcs=[D + "c20_opaque_casts.cpp"], build="asan0", defs=EXC + ["CFG=vsbx_" + n, "PART=1"]))
+        runs.append(dict(unit=nm + "_p0", label=nm + "_opaque_ptr"))
+        runs += sliced(nm + "_p1", 6, label=nm + "_static")
+    return dict(units=units, runs=runs, evidence=dict(
+        level="exploration",
+        rule="case = (a) tainted value -> to_opaque -> from_opaque compared by object representation, for every primitive (all patterns of <=16-bit "
+             "types, boundaries/random/NaN payloads/-0.0 otherwise), pointers, pointer-to-pointer, arrays, a registered struct; (b) the same value "
+             "passed as tainted and as tainted_opaque to a guest function and through a callback with opaque parameter/result: the guest event log "
+             "must show identical values; (c) sandbox_static_cast for all 15x15 arithmetic/enum pairs from tainted and from sandbox-resident "
+             "tainted_volatile sources against the C++ cast (only where the C++ cast is defined); (d) sandbox_reinterpret/const/static_cast on "
+             "pointers: designated address unchanged, null preserved, source cell unchanged. Distinct = (kind, type or type pair, source wrapper).",
+        exhaustive=False,
+        exhaustive_subspaces=["all bit patterns of 8- and 16-bit types for the opaque round trip and as static_cast sources (sub-sampled above 3000 values per pair)"],
+        assumptions=["model backend ILP32 (quick) plus NARROW and WIDE (thorough)"]))
